@@ -25,7 +25,12 @@
     Known finding F12 ([C01_distribute_fluent_refuted]): FluentWorklist.distribute writes the source range in
     EVO numbering; with a multi-row trough the record does not address the source column on a Fluent.
 
-    Composition (C01_composition) is not proved here; see the comment at the end of this file. *)
+    Composition: [cfrac comp k i] = fraction of component [k] in real well [i] of a composition table (0 for an
+    unknown name); [cinv L]: component names of [L] pairwise distinct, no negative fraction; [cstate s]: every
+    labware is [cinv]; [rack_csim L r] = [rack_sim L r], the rack's table is well-shaped, and
+    [cfrac (rk_comp r) k j == cfrac (lw_comp L) k j] for all [k], [j]; [csim s rb] = [Forall2 rack_csim];
+    [tr_op o]: [o] is a transfer or a record-only call.  Proved for pipetting steps, transfers and programs of
+    transfers; the composition part for [distribute] is open (see the end of this file). *)
 From Robo Require Import Prelude Str Wells Utils Labware Tips Records Partition Params Worklist EvoCmd
   Program Invariants Robot LabwareProofs RefinementProofs.
 From Coq Require Import Sorting.Sorted.
@@ -245,11 +250,88 @@ Example C01_example_run :
   end.
 Proof. vm_compute. repeat split; reflexivity. Qed.
 
-(** C01_composition — NOT PROVED.  Wanted: for programs of OTransfer / ODistribute only, every component
-    name k and well i:  fraction of k in the robot's well i (0 if absent) == fraction the Labware reports.
-    The interpreter's [mix_into] and the model's [combine_composition] / [write_composition] both give
-    (V f_k + v g_k) / (V + v); the model-side algebra (fractions after one accepted addition) is available
-    in Proofs/MixingProofs.v ([add_step_frac_same], [add_step_frac_other], [add_step_guard]), what is missing
-    is the robot-side counterpart for [mix_into] and the lock-step induction; for [distribute] the
-    destination order of the R record (ascending positions) differs from the order of the tracked additions,
-    so the argument additionally needs that mixing the same liquid into several wells commutes. *)
+(* ------------------------------------------------------------------ composition *)
+
+#[local] Close Scope string_scope.
+
+(** the initial robot also agrees on the compositions *)
+Theorem C01_composition_initial : forall s, wf_state s -> cstate s -> csim s (robot_of (st_lw s)).
+Proof. exact csim_robot_of. Qed.
+Print Assumptions C01_composition_initial.
+
+(** the interpreter's mixing: (V f_k + v g_k) / (V + v) in the addressed well, nothing elsewhere *)
+Theorem C01_mix_into : forall r i V v g k j,
+  arrays_len (length (rk_vols r)) (rk_comp r) -> (i < length (rk_vols r))%nat -> ~ V + v == 0 ->
+  cfrac (mix_into r i V v g) k j ==
+  if (j =? i)%nat then (V * cfrac (rk_comp r) k i + v * fget k g) / (V + v) else cfrac (rk_comp r) k j.
+Proof. exact mix_into_cfrac. Qed.
+Print Assumptions C01_mix_into.
+
+(** the model's mixing ([combine_composition] / [write_composition] in one accepted addition): the same *)
+Theorem C01_model_mixing : forall L i v c k j,
+  arrays_len (n_wells (lw_geom L)) (lw_comp L) -> (i < n_wells (lw_geom L))%nat ->
+  NoDup (map fst (lw_comp L)) -> NoDup (map fst c) ->
+  (forall k0, 0 <= cfrac (lw_comp L) k0 i) -> ~ vol_at L i + v == 0 ->
+  cfrac (lw_comp (add_one L i v (Some c))) k j ==
+  if (j =? i)%nat then (vol_at L i * cfrac (lw_comp L) k i + v * fget k c) / (vol_at L i + v)
+  else cfrac (lw_comp L) k j.
+Proof. exact add_one_cfrac. Qed.
+Print Assumptions C01_model_mixing.
+
+(** one pipetting step of a positive volume: volumes AND compositions of the replayed robot agree with the
+    tracked state (checked interpreter; the unchecked one follows by [C03_checked_implies_unchecked]) *)
+Theorem C01_composition_exec_step : forall s ks kd sw dw v ws kw s' rb,
+  good_state s -> cstate s -> csim s rb -> 0 < v -> exec_step s ks kd sw dw v ws kw = (s', None) ->
+  exists new rb', st_wl s' = emit (st_wl s) new /    interp true (w_dev (st_wl s)) rb new = Some rb' /\ csim s' rb' /\ cstate s'.
+Proof. exact exec_step_csim. Qed.
+Print Assumptions C01_composition_exec_step.
+
+(** every step of a plan has a positive volume, so a whole transfer *)
+Theorem C01_composition_transfer : forall s ks swells kd dwells vols label ws pb kw s' rb,
+  good_state s -> cstate s -> csim s rb ->
+  transfer s ks swells kd dwells vols label ws pb kw = (s', None) ->
+  exists new rb', st_wl s' = emit (st_wl s) new /    interp true (w_dev (st_wl s)) rb new = Some rb' /\ csim s' rb' /\ cstate s'.
+Proof. exact transfer_csim. Qed.
+Print Assumptions C01_composition_transfer.
+
+(** programs of transfers (and record-only calls), every call accepted *)
+Theorem C01_composition_run : forall s0 ops,
+  good_state s0 -> cstate s0 -> w_recs (st_wl s0) = [] -> forallb tr_op ops = true ->
+  Forall (fun e => e = None) (snd (run s0 ops)) ->
+  exists rb, interp false (w_dev (st_wl s0)) (robot_of (st_lw s0)) (w_recs (st_wl (fst (run s0 ops)))) = Some rb /             csim (fst (run s0 ops)) rb.
+Proof. exact run_composition. Qed.
+Print Assumptions C01_composition_run.
+
+(** pointwise reading of [csim] *)
+Theorem C01_composition_pointwise : forall s rb k0 L r k j, csim s rb ->
+  nth_error (st_lw s) k0 = Some L -> nth_error (rb_racks rb) k0 = Some r ->
+  cfrac (rk_comp r) k j == cfrac (lw_comp L) k j.
+Proof. exact csim_fraction. Qed.
+Print Assumptions C01_composition_pointwise.
+
+Example C01_example_cstate : cstate (ex_state Evo).
+Proof. apply ex_state_cstate. Qed.
+
+(** all fractions of all named components agree, as a computation *)
+Definition C01_fractions_agree (L : labware) (r : rack) : bool :=
+  forallb (fun k => forallb (fun j => Qeq_bool (cfrac (rk_comp r) k j) (cfrac (lw_comp L) k j))
+                            (seq 0 (length (lw_vols L))))
+          (map fst (lw_comp L) ++ map fst (rk_comp r)).
+
+Example C01_example_composition :
+  let r := run (ex_state Evo)
+    [OTransfer 0 (A1 ["A01"; "B01"]%string) 0 (A1 ["A02"; "A02"]%string) (A1 [2000; 50]) None SFlush "auto"%string kw_default;
+     OTransfer 0 (A1 ["A02"]%string) 1 (A1 ["A01"]%string) (A1 [100]) None SFlush "auto"%string kw_default] in
+  snd r = [None; None] /  map lw_vols (st_lw (fst r)) = [[1000; 1950; 50; 0]; [600; 500]] /  match interp false Evo (robot_of (st_lw (ex_state Evo))) (w_recs (st_wl (fst r))) with
+  | Some rb => forallb (fun p => C01_fractions_agree (fst p) (snd p)) (combine (st_lw (fst r)) (rb_racks rb)) = true /               map (fun r0 => cfrac (rk_comp r0) "big.A01"%string 0%nat) (rb_racks rb) = [1; 2000 # 12300]
+  | None => False
+  end.
+Proof. vm_compute. repeat split; reflexivity. Qed.
+
+(** C01_composition for [distribute] — NOT PROVED.  Wanted: [csim] (volumes and compositions) after an accepted
+    [distribute], hence [C01_composition_run] for programs of OTransfer and ODistribute.  The volume part is
+    [C01_distribute]; for the compositions the R record dispenses in ascending position order while the tracking
+    adds in the order of the destination ids, and several positions of a destination trough address the same
+    real well, so the lock-step argument of [C01_composition_exec_step] does not apply directly: missing is the
+    closed form (V f_k + n v g_k) / (V + n v) after n additions of the same liquid to a well (on both sides),
+    which makes the result independent of the order. *)
